@@ -11,7 +11,7 @@ from .core import PyExc, Unsupported, PathPruned, sub_explore
 from .expr import Frame, GenV
 from .ops import conc_bool, conc_int, as_int_term, is_num, mk
 from .stmt import BUILTIN_EXC
-from .values import (BoolV, IntV, RealV, StrV, NoneV, NONE, TupleV, ListV, SeqV, SetV, DictV, ObjV,
+from .values import (RefV, BoolV, IntV, RealV, StrV, NoneV, NONE, TupleV, ListV, SeqV, SetV, DictV, ObjV,
                      ClassV, FuncV, BoundV, BuiltinV, ModuleV, RangeV, SuperV, V)
 
 BUILTIN_NAMES = {
@@ -152,6 +152,8 @@ class CallMixin:
         if isinstance(obj, ObjV):
             if name in obj.fields:
                 return obj.fields[name]
+            if obj.cls == "FileHandle":
+                return BoundV(obj, name)
             stub = self.stubs.get(f"{obj.cls}.{name}")
             if stub is not None:
                 fn = self.sidecar_function(stub)
@@ -186,6 +188,8 @@ class CallMixin:
             if name == "__dict__":
                 return DictV(entries=[(StrV(s=k), v) for k, v in obj.fields.items()])
             raise PyExc("AttributeError", f"{obj.cls}.{name}", line)
+        if isinstance(obj, RefV):
+            return self.ref_getattr(obj, name, line)
         if isinstance(obj, ClassV):
             if obj.name in BUILTIN_EXC:
                 raise Unsupported(f"attribute {name} of builtin class {obj.name}")
@@ -222,6 +226,69 @@ class CallMixin:
         if isinstance(obj, NoneV):
             raise PyExc("AttributeError", f"None.{name}", line)
         raise Unsupported(f"attribute {name} of {obj!r}")
+
+    def ref_getattr(self, obj: RefV, name: str, line: int) -> V:
+        desc = obj.desc
+        cls = desc.cls
+        if name in desc.fields:
+            return self.ref_field(obj.t, f"{cls}.{name}", desc.fields[name])
+        stub = self.stubs.get(f"{cls}.{name}")
+        if stub is not None:
+            if isinstance(stub, dsl.External):
+                return BoundV(obj, stub)
+            fn = self.sidecar_function(stub)
+            if getattr(stub, "is_property", False):
+                return self.call_function(fn, [obj], {})
+            return BoundV(obj, fn)
+        raise Unsupported(f"attribute {name} of opaque {cls} is not declared in the contract (line {line})")
+
+    def ref_field(self, term: Any, fname: str, fdesc: Any) -> V:
+        """Value of an immutable field function of an opaque object."""
+        ctx = self.ctx
+        sort = term.sort()
+        if isinstance(fdesc, dsl.Opt):
+            flag = z3.Function(f"{fname}.isnone", sort, z3.BoolSort())
+            if ctx.branch(flag(term)):
+                return NONE
+            return self.ref_field(term, fname, fdesc.inner)
+        if isinstance(fdesc, dsl.Const):
+            return self.from_python(fdesc.value)
+        if isinstance(fdesc, dsl.SeqOf):
+            et = self.elem_type(fdesc.elem)
+            arr = z3.Function(f"{fname}[]", sort, z3.ArraySort(z3.IntSort(), et.sort))(term)
+            n = z3.Function(f"len({fname})", sort, z3.IntSort())(term)
+            ctx.assume(n >= 0)
+            return SeqV(arr, n, et)
+        if isinstance(fdesc, dsl.DictOf):
+            kt, vt = self.elem_type(fdesc.key), self.elem_type(fdesc.value)
+            karr = z3.Function(f"{fname}.keys[]", sort, z3.ArraySort(z3.IntSort(), kt.sort))(term)
+            n = z3.Function(f"len({fname})", sort, z3.IntSort())(term)
+            ctx.assume(n >= 0)
+            if getattr(fdesc, 'distinct', False):
+                i, j = z3.Int(ctx.fresh_name("q")), z3.Int(ctx.fresh_name("q"))
+                ctx.assume(z3.ForAll([i, j], z3.Implies(z3.And(0 <= i, i < j, j < n),
+                                                        z3.Select(karr, i) != z3.Select(karr, j))))
+            vals = z3.Function(f"{fname}.vals", sort, z3.ArraySort(kt.sort, vt.sort))(term)
+            return DictV(keys=SeqV(karr, n, kt), vals=vals, vt=vt)
+        et = self.elem_type(fdesc)
+        value = z3.Function(fname, sort, et.sort)(term)
+        return self.unpack(value, et)
+
+    def call_external(self, ext: Any, label: str, args: list[V], line: int) -> V:
+        ctx = self.ctx
+        ctx.assumptions_used.add(f"assumed contract of external callee {label}: may raise {ext.raises or 'nothing'}, "
+                                 f"{'effect ' + ext.effect if ext.effect else 'no file-system effect'}")
+        if ctx.quant_depth or ctx.spec_depth:
+            raise Unsupported(f"external callee {label} under a quantifier/spec")
+        if ext.effect:
+            self.effect(ext.effect, args[0] if args else NONE)
+        for pos, etype in enumerate(ext.raises):
+            if ctx.decide(2) == 1:
+                raise PyExc(etype, f"external {label}", line)
+        if ext.returns is None:
+            return NONE
+        ctx.havoc_used = True
+        return self.fresh_resolved(ext.returns, ctx.fresh_name(f"ext_{label}"))
 
     def class_const(self, cls: Any, name: str) -> V:
         key = (cls.module, cls.name, name)
@@ -312,6 +379,8 @@ class CallMixin:
         if isinstance(func, FuncV):
             return self.call_function(func, args, kwargs, line)
         if isinstance(func, BoundV):
+            if isinstance(func.func, dsl.External):
+                return self.call_external(func.func, f"{getattr(getattr(func.obj, 'desc', None), 'cls', '?')}.method", args, line)
             if isinstance(func.func, FuncV):
                 return self.call_function(func.func, [func.obj] + args, kwargs, line)
             return self.call_method_builtin(func.obj, func.func, args, kwargs, line)
@@ -354,6 +423,8 @@ class CallMixin:
     def call_function(self, fv: FuncV, args: list[V], kwargs: dict[str, V], line: int = 0) -> V:
         stub = self.stubs.get(fv.qualname)
         if stub is not None and not fv.is_spec:
+            if isinstance(stub, dsl.External):
+                return self.call_external(stub, fv.qualname, args, line)
             return self.pure_call(self.sidecar_function(stub), args, kwargs)
         if fv.is_spec:
             return self.pure_call(fv, args, kwargs)
@@ -501,8 +572,6 @@ class CallMixin:
             fields = {fname: self.fresh_resolved(ftype, f"{name}.{fname}", is_input)
                       for fname, ftype in desc.fields.items()}
             return ObjV(desc.cls, fields)
-        if isinstance(desc, dsl.DictOf):
-            raise Unsupported("DictOf descriptor: build dicts in the contract's `setup`")
         return self.fresh(desc, name, is_input)
 
     # ---- construction ---------------------------------------------------------------------------------------------
